@@ -40,11 +40,15 @@ def make_plan(seed: int, tier: str, opts: dict) -> dict:
             per = min(1.0 / spec["nodes"][c["dst"]]["rate"], 1.0 / spec["nodes"][c["src"]]["rate"])
             c["dist"] = _finite_dist(r, per, False)
             c["delay"] = sp._r6(min(sp.dist_max(c["dist"]), per) * r.choice([1.0, 0.5])) if (c["dist"][0] == "mix" or r.random() < 0.5) else None
+        for k_, c in enumerate(spec["conns"]):
+            if r.random() < 0.25:
+                c["name"] = f"in{k_}"  # shadow input name
         sp._repair(spec)
         # history of configuration calls
         model = copy.deepcopy(spec)
         _materialise_defaults(model)
         hist = []
+        big = r.random() < opts.get("big_delay_p", 0.2)
         for _ in range(r.randint(2, 7)):
             if r.random() < 0.6:
                 # the user looks at phases / infos in between (a read must never make a later change invisible)
@@ -55,6 +59,8 @@ def make_plan(seed: int, tier: str, opts: dict) -> dict:
                 nd_dist = _finite_dist(r, per, True) if r.random() < 0.75 else None
                 cur = nd_dist or model["nodes"][i]["dist"]
                 nd_delay = sp._r6(min(sp.dist_max(cur), per) * r.choice([1.0, 0.5, 0.25])) if r.random() < 0.6 else None
+                if big and r.random() < 0.5:
+                    nd_delay = sp._r6(per * r.choice([1.3, 2.5]))  # expected delay longer than the period
                 hist.append(["node_set_delay", i, nd_dist, nd_delay])
                 if nd_dist is not None:
                     model["nodes"][i]["dist"] = nd_dist
@@ -75,7 +81,7 @@ def make_plan(seed: int, tier: str, opts: dict) -> dict:
         sp._repair(model)
         for i, nd in enumerate(model["nodes"]):
             spec["nodes"][i]["advance"] = nd["advance"]
-        if sp.in_S(model) is None and sp.in_S(spec) is None:
+        if sp.in_S(spec) is None and (sp.in_S(model) is None or (big and "expected comp delay" in (sp.in_S(model) or ""))):
             break
     loop = None
     if r.random() < 0.3:
@@ -94,7 +100,7 @@ def make_plan(seed: int, tier: str, opts: dict) -> dict:
     ep = driver.gen_episode(r, 0, open_loop=spec["open_loop"], nsteps=r.randint(5, 10), endings=("stop",), override_p=0.0)
     ep["until_active"] = True
     ep2 = dict(ep, strategy=driver.draw_strategy(r), sseed=r.randrange(2**31))
-    return dict(spec=spec, model=model, history=hist, loop=loop, seed=seed, episodes=[ep], episodes_rt=[ep2], clock="sim", line_rate=0.0)
+    return dict(spec=spec, model=model, history=hist, loop=loop, seed=seed, simulate=sp.in_S(model) is None, episodes=[ep], episodes_rt=[ep2], clock="sim", line_rate=0.0)
 
 
 def _materialise_defaults(model):
@@ -151,7 +157,7 @@ def apply_history(nodes, spec, hist):
             nodes[names[op[1]]].set_delay(delay_dist=sp.make_dist(op[2]) if op[2] is not None else None, delay=op[3])
         elif op[0] == "conn_set_delay":
             c = spec["conns"][op[1]]
-            conn = nodes[names[c["dst"]]].inputs[names[c["src"]]]
+            conn = nodes[names[c["dst"]]].inputs[sp.input_name(spec, c)]
             conn.set_delay(delay_dist=sp.make_dist(op[2]) if op[2] is not None else None, delay=op[3])
 
 
@@ -171,7 +177,14 @@ def check_config(nodes, model, names):
         if dist_sig(node.delay_dist)[:2] != _sig_model(nd["dist"])[:2] or dist_sig(info.delay_dist)[:2] != _sig_model(nd["dist"])[:2]:
             viol.append(dict(clause="c16-set-delay-distribution-takes-effect", signature="c16-dist", node=node.name, current=dist_sig(node.delay_dist), expected=nd["dist"]))
     for c in model["conns"]:
-        conn = nodes[names[c["dst"]]].inputs[names[c["src"]]]
+        cands = [x for x in nodes[names[c["dst"]]].inputs.values() if x.output_node.name == names[c["src"]]]
+        if len(cands) != 1:
+            viol.append(dict(clause="c16-connection-missing-or-duplicated", signature="c16-conn", conn=f"{names[c['src']]}->{names[c['dst']]}", found=len(cands)))
+            continue
+        conn = cands[0]
+        if conn.input_name != sp.input_name(model, c) or nodes[names[c["dst"]]].inputs.get(conn.input_name) is not conn:
+            viol.append(dict(clause="c16-input-name-matches-configuration", signature="c16-input-name", conn=f"{names[c['src']]}->{names[c['dst']]}", input_name=conn.input_name,
+                             expected=sp.input_name(model, c)))
         exp_phase = (phases[c["src"]] + model["nodes"][c["src"]]["delay"]) + c["delay"]
         ii = nodes[names[c["dst"]]].info.inputs[names[c["src"]]]
         if abs(float(conn.delay) - c["delay"]) > 1e-9 or abs(float(ii.delay) - c["delay"]) > 1e-9:
@@ -180,7 +193,7 @@ def check_config(nodes, model, names):
             viol.append(dict(clause="c16-connection-phase", signature="c16-phase", conn=f"{names[c['src']]}->{names[c['dst']]}", phase=float(conn.phase), expected=exp_phase))
         if dist_sig(conn.delay_dist)[:2] != _sig_model(c["dist"])[:2] or dist_sig(ii.delay_dist)[:2] != _sig_model(c["dist"])[:2]:
             viol.append(dict(clause="c16-set-delay-distribution-takes-effect", signature="c16-dist", conn=f"{names[c['src']]}->{names[c['dst']]}", current=dist_sig(conn.delay_dist), expected=c["dist"]))
-        if (ii.window, bool(ii.blocking), bool(ii.skip), ii.output, ii.rate) != (c["window"], c["blocking"], c["skip"], names[c["src"]], model["nodes"][c["src"]]["rate"]):
+        if (ii.window, bool(ii.blocking), bool(ii.skip), ii.output, ii.rate, ii.name) != (c["window"], c["blocking"], c["skip"], names[c["src"]], model["nodes"][c["src"]]["rate"], sp.input_name(model, c)):
             viol.append(dict(clause="c16-input-info-matches-configuration", signature="c16-info", conn=f"{names[c['src']]}->{names[c['dst']]}"))
     return viol, phases
 
@@ -208,6 +221,28 @@ def run_plan(plan: dict, replay=None) -> dict:
         v, phases = check_config(nodes, model, names)
         holder["config_viol"], holder["phases"] = v, phases
 
+    if not plan.get("simulate", True):
+        # configuration outside the supported class of the simulator (expected delay > period): only the configuration oracles apply
+        nodes0 = sp.build_nodes(spec)
+        after_build(nodes0)
+        viol += holder.get("config_viol", [])
+        try:
+            nodes2 = {n: ProbeNode.from_info(nodes0[n].info, idx=nodes0[n].idx) for n in names}
+            for n in names:
+                nodes2[n].connect_from_info(nodes0[n].info.inputs, nodes2)
+            v2, _ = check_config(nodes2, model, names)
+            for x in v2:
+                x["clause"] = "c16-rebuilt-from-info:" + x["clause"]
+                x["signature"] = "c16-roundtrip"
+                viol.append(x)
+        except Exception as e:
+            viol.append(dict(clause="c16-rebuilt-from-info:raised", signature="c16-roundtrip", detail=repr(e)[:300]))
+        res.update(sums=dict(config_calls=len(hist), configuration_only_runs=1), dicts=dict(fault_counts={}, probe_counts={}, strategies={}), distinct=[[common.h16(spec), common.h16(hist)]], interleavings=[], task_orders=[])
+        if viol:
+            res.update(status="violation", violations=viol)
+        else:
+            res.update(status="ok", sample=dict(spec=spec, history=hist, configuration_only=True))
+        return res
     ro = driver.execute(plan, after_build=after_build)
     if ro.status in ("harness_error", "replay_diverged", "build_error"):
         res.update(status="harness_error", detail=f"{ro.status}: {ro.harness_error or ro.detail}")
